@@ -71,7 +71,10 @@ func (f *Mapl) Call(s *slip.Scope, args slip.List, depth int) (result slip.Objec
 			l2 := args[i].(slip.List)
 			ca[i-1] = l2[n:]
 		}
-		_ = caller.Call(s, ca, d2)
+		if r, exit := caller.Call(s, ca, d2).(slip.NonLocalExit); exit {
+			// return-from, return or go: control is leaving the function.
+			return r
+		}
 	}
 	return list
 }
